@@ -25,6 +25,9 @@ ASSUMPTIONS = [
     'phrases and strings are content, not layout',
     'the parser is also called on pairs of texts that differ only in blank space inside literals/phrases or in the line break '
     'ending a // comment, one after the other in one process (a tree is a function of the text alone)',
+    'the comma the grammar allows after the last item of a parameter list / event data list ("::f(a: 1, )") is an optional '
+    'spelling of the same list: such texts must parse to the tree without it, alone, next to invocations / events with an empty '
+    '"()" in the same text, and in ordered in-process pairs with them',
 ]
 
 
@@ -124,6 +127,23 @@ def near_items():
     items.append(([x1], ['trail', ' // reset y = 2;']))
     items.append(([x1], ['trail', ' /* reset\n*/ // y = 2;']))
     items.append(([x1], 'default'))
+    # a list that ends with the optional comma after its last item, and the same invocation / event with an empty list or
+    # without the comma: what one text was parsed to must not show in the tree of the next
+    TC = A.TRAILING_COMMA
+    a1 = [('a', F.I(1))]
+    ab = [('a', F.I(1)), ('b', V('n'))]
+    for mk in (lambda ps: ('call', None, ('fcall', 'f', ps)),
+               lambda ps: ('call', 'bridge', ('ncall', 'EE', 'b', ps)),
+               lambda ps: ('callassign', 'transform', V('v'), ('icall', V('x'), 'op', ps)),
+               lambda ps: ('call', 'transform', ('ncall', 'K', 'cop', ps)),
+               lambda ps: ('call', 'send', ('ncall', 'Port', 'msg', ps)),
+               lambda ps: ('assign', V('r'), ('icall', ('self',), 'op', ps), False),
+               lambda ps: ('portevent', 'Port', 'sig', ps, V('x')),
+               lambda ps: ('gen', ('E1', False, None, ps), ('inst', V('x'))),
+               lambda ps: ('createev', 'ev', ('E1', False, None, ps), ('class', 'K'))):
+        for ps in (ab + [TC], [], a1):
+            items.append(([mk(ps)], 'default'))
+    items.append(([('gen', ('E1', False, None, None), ('inst', V('x')))], 'default'))      # event without a data list at all
     return items
 
 
@@ -169,9 +189,12 @@ def run_families(ctx, prop, positions):
         progs.append(('exprlayout', 'expr', [('assign', ('var', 'x'), e, False)], 'minimal'))
     for e in F.LEAVES_ALL:
         progs.append(('leaflayout', 'leaf', [('assign', ('var', 'x'), ('bin', '+', e, e), False)], 'minimal'))
+    # the optional comma after the last item of a parameter / event data list
+    for name, stmts in F.trailing_comma_family():
+        progs.append(('trailcomma', name, stmts, 'minimal'))
     ctx.pmap(layout_task, [(prop, positions, ctx.tier, c) for c in chunks(progs, 4)])
     ctx.pmap(near_task, [(prop, positions, i, i + 60) for i in range(0, near_count(), 60)])
-    ctx.require(ctx.n('near_pairs') >= 400, 'too few pairs of near-identical texts (%d)' % ctx.n('near_pairs'))
+    ctx.require(ctx.n('near_pairs') >= 2000, 'too few pairs of near-identical texts (%d)' % ctx.n('near_pairs'))
     ctx.sample(dict(expression=exprs[len(exprs) // 2][1], text=A.assemble(A.print_expression(exprs[len(exprs) // 2][1]))[0]))
     nm, st = F.statement_family()[40]
     ctx.sample(dict(statement=nm, text=A.assemble(A.print_program(st), A.Layout(default='\n'))[0]))
@@ -213,6 +236,13 @@ def replay_case(ctx, prop, positions, case):
     else:
         p = A.print_program(case['stmts'], case['paren'])
         desc = case.get('layout')
+        if desc not in (None, 'default'):
+            # the run parses the layouts of one program in sequence in one process, the default layout first
+            from bridgepoint import oal
+            try:
+                oal.parse(A.assemble(p, F.layout_from('default'))[0])
+            except Exception:
+                pass
         check_text(ctx, prop, p, desc, positions, case,
                    case['family'] + ':' + (desc if isinstance(desc, str) else desc[0]))
 
@@ -236,6 +266,7 @@ def coverage(ctx):
              'expression trees with at least three nodes, and every (statement program, layout) pair',
         bounds=dict(expression_depth=3 if ctx.quick else 4, binary_operators=len(A.BINARY_OPS), unary_operators=len(A.UNARY_OPS),
                     operand_kinds=len(F.LEAVES_ALL), statement_programs=len(F.statement_family()),
+                    trailing_comma_programs=len(F.trailing_comma_family()), near_identical_items=len(near_items()),
                     gap_alternatives=F.GAP_ALTERNATIVES, layout_deviation_bound=1 if ctx.quick else 2),
         exhaustive=not ctx.caps_hit,
     )
